@@ -540,6 +540,12 @@ class PteraTransformer(NodeTransformer):
                 body = body[1:]
 
         new_body += self.visit_body(node.body)
+        if not isinstance(node.body[-1], (ast.Return, ast.Raise)):
+            # Falling off the end of the function returns None: this is a
+            # normal completion, so it goes through #value like any return.
+            new_body.append(
+                self.visit_Return(ast.copy_location(ast.Return(value=None), node.body[-1]))
+            )
         new_body = self.delimit(
             new_body,
             ["#enter"],
